@@ -100,9 +100,11 @@ func (r *symRedis) HSet(ctx context.Context, key string, values ...interface{}) 
 	n := int64(0)
 	for i := 0; i+1 < len(values); i += 2 {
 		f := values[i].(string)
+		if _, had := h.fields[f]; !had {
+			n++ // HSET answers with the number of fields that were added, not of those updated
+		}
 		h.fields[f] = values[i+1]
 		r.log = append(r.log, symRedisCmd{name: "HSET", key: key, field: f})
-		n++
 	}
 	return redis.NewIntResult(n, nil)
 }
@@ -290,9 +292,21 @@ func VerifC10_RedisTimeouts() {
 	vn.Assume(len(sid) > 0)
 	created := k.now
 	idTok := vn.JWT("id", true, 0, "", 0, "", "", vn.Time("exp"), true)
+	lastUse := created
+	if vn.Choice("created-by-the-login-redirect", 2) == 1 {
+		// as in the running service: the login redirect creates the session (login state), the
+		// tokens arrive later at the callback, still inside both limits
+		err := k.store.SetAuthorizationState(ctx, sid, &AuthorizationState{State: "s", Nonce: "n", RequestedURL: "u", CodeVerifier: "v"})
+		vn.Assert("C10/redis-create", err == nil)
+		tc := vn.Time("now-callback")
+		vn.Assume(!tc.Before(k.now))
+		vn.Assume(vn.And(vn.Or(k.abs == 0, tc.Before(created.Add(k.abs).Add(-time.Second))), vn.Or(k.idle == 0, tc.Before(created.Add(k.idle).Add(-time.Second)))))
+		k.advance(tc)
+		lastUse = tc
+		vn.Cover("C10/redis-created-by-login-redirect", true)
+	}
 	err := k.store.SetTokenResponse(ctx, sid, &TokenResponse{IDToken: idTok, AccessToken: vn.StringIn("access", 2, alphaID)})
 	vn.Assert("C10/redis-create", err == nil)
-	lastUse := created
 	switch vn.Choice("use-in-between", 3) {
 	case 1:
 		t1 := vn.Time("now1")
